@@ -379,3 +379,172 @@ TARGETS = {
     'T13o': {'file': 'spatial.py', 'build': build_T13o},
     'T13e': {'file': 'enum.py', 'build': build_T13e},
 }
+
+
+# ---------------------------------------------------------------------------------------------------------------------------
+# T13w  "argument writes": every statement of the coordinate helpers that stores IN PLACE into an object that may be (a view of)
+# an argument of the caller.  Flow-ordered may-alias analysis per function:
+#   * a parameter is `given` unless its annotation is a plain immutable type (int, float, bool, str, enums);
+#   * a local becomes `alias` when it is bound to a given/alias name, to np.asarray / np.asanyarray / np.ascontiguousarray /
+#     np.asfortranarray / np.atleast_*d / np.array(..., copy=False) of one, to a view of one (.T, .reshape, .ravel, .squeeze,
+#     .view, .swapaxes, .transpose, np.squeeze/np.reshape/np.transpose(x), a subscript x[...], an attribute chain), or to a
+#     conditional expression / tuple element of those; anything else (np.array(x), x.copy(), x.astype(...), arithmetic, calls)
+#     makes it `fresh`;
+#   * writes: augmented assignment to a given/alias array name or to a subscript / attribute of one, plain assignment to a
+#     subscript of one, `out=` arguments and mutating methods (sort, fill, resize, put, itemset, append, extend, insert, pop,
+#     remove, clear, reverse, update, setdefault, __setitem__, __delitem__) on one, `del x[...]`.
+# The table is expected to be EMPTY; `helpers_never_write_arguments` in Props/C10.lean states that.
+_W_FUNCS = [
+    'get_normal_vector', 'create_rotation_matrix', '_stack_affine_matrix', 'create_affine_matrix_from_attributes',
+    '_create_inv_affine_matrix_from_attributes', 'rotation_for_patient_orientation', 'create_affine_matrix_from_components',
+    '_transform_affine_matrix', '_translate_affine_matrix', '_transform_affine_to_convention', 'get_closest_patient_orientation',
+    '_is_matrix_orthogonal', '_are_images_coplanar', '_normalize_pixel_index_convention', '_normalize_patient_orientation',
+    'PixelToReferenceTransformer.__init__', 'PixelToReferenceTransformer.__call__',
+    'ReferenceToPixelTransformer.__init__', 'ReferenceToPixelTransformer.__call__',
+    'PixelToPixelTransformer.__init__', 'PixelToPixelTransformer.__call__',
+    'ImageToReferenceTransformer.__init__', 'ImageToReferenceTransformer.__call__',
+    'ReferenceToImageTransformer.__init__', 'ReferenceToImageTransformer.__call__',
+    'ImageToImageTransformer.__init__', 'ImageToImageTransformer.__call__',
+    'map_pixel_into_coordinate_system', 'map_coordinate_into_pixel_matrix', 'compute_tile_positions_per_frame',
+    'get_volume_positions', 'get_series_volume_positions', 'get_plane_sort_index', 'get_dataset_sort_index', 'sort_datasets',
+    '_get_slice_distances', '_get_spatial_information',
+]
+_W_IMMUTABLE = {'int', 'float', 'bool', 'str', 'bytes', 'int | None', 'float | None', 'bool | None', 'str | None'}
+_W_ASVIEW = {'np.asarray', 'np.asanyarray', 'np.ascontiguousarray', 'np.asfortranarray', 'np.atleast_1d', 'np.atleast_2d',
+             'np.atleast_3d', 'np.squeeze', 'np.reshape', 'np.transpose', 'np.ravel', 'np.swapaxes', 'np.moveaxis',
+             'np.expand_dims', 'np.broadcast_to'}
+_W_VIEWMETH = {'reshape', 'ravel', 'squeeze', 'view', 'swapaxes', 'transpose', 'T', 'flat', 'real', 'imag'}
+_W_MUT = {'sort', 'fill', 'resize', 'put', 'itemset', 'append', 'extend', 'insert', 'pop', 'remove', 'clear', 'reverse', 'update',
+          'setdefault', '__setitem__', '__delitem__', 'setflags', 'partition'}
+
+
+def _w_base(node):
+    while isinstance(node, (ast.Subscript, ast.Attribute, ast.Starred)):
+        node = node.value
+    return node.id if isinstance(node, ast.Name) else None
+
+
+def _w_may_alias(node, kinds):
+    """does the value of this expression possibly share memory with a given/alias object?"""
+    if isinstance(node, ast.Name):
+        return kinds.get(node.id) in ('given', 'alias')
+    if isinstance(node, (ast.Subscript, ast.Starred)):
+        return _w_may_alias(node.value, kinds)
+    if isinstance(node, ast.Attribute):
+        return _w_may_alias(node.value, kinds)
+    if isinstance(node, ast.IfExp):
+        return _w_may_alias(node.body, kinds) or _w_may_alias(node.orelse, kinds)
+    if isinstance(node, (ast.Tuple, ast.List)):
+        return False                      # a new container (its elements are not written through it by these helpers)
+    if isinstance(node, ast.NamedExpr):
+        return _w_may_alias(node.value, kinds)
+    if isinstance(node, ast.Call):
+        fn = ast.unparse(node.func)
+        if fn in _W_ASVIEW and node.args:
+            return _w_may_alias(node.args[0], kinds)
+        if fn == 'np.array' and node.args:
+            for kw in node.keywords:
+                if kw.arg == 'copy' and not (isinstance(kw.value, ast.Constant) and kw.value.value is True):
+                    return _w_may_alias(node.args[0], kinds)
+            return False
+        if isinstance(node.func, ast.Attribute) and node.func.attr in _W_VIEWMETH:
+            return _w_may_alias(node.func.value, kinds)
+        return False
+    return False
+
+
+def _w_scan(fn, qual):
+    kinds = {}
+    for a in fn.args.posonlyargs + fn.args.args + fn.args.kwonlyargs:
+        ann = ast.unparse(a.annotation) if a.annotation is not None else ''
+        kinds[a.arg] = 'fresh' if (a.arg in ('self', 'cls') or ann in _W_IMMUTABLE) else 'given'
+    rows = []
+
+    def note(name, st):
+        rows.append((qual, name, ' '.join(ast.unparse(st).split())[:120]))
+
+    def bind(t, value):
+        if isinstance(t, ast.Name):
+            kinds[t.id] = 'alias' if (value is not None and _w_may_alias(value, kinds)) else 'fresh'
+        elif isinstance(t, (ast.Tuple, ast.List)):
+            for e in t.elts:
+                bind(e.value if isinstance(e, ast.Starred) else e, None)
+
+    def visit(stmts):
+        for st in stmts:
+            if isinstance(st, (ast.FunctionDef, ast.ClassDef, ast.AsyncFunctionDef)):
+                continue
+            # expression-level writes anywhere inside the statement
+            for node in ast.walk(st):
+                if isinstance(node, ast.Call):
+                    for kw in node.keywords:
+                        if kw.arg == 'out' and _w_may_alias(kw.value, kinds):
+                            note(_w_base(kw.value) or '?', st)
+                    if isinstance(node.func, ast.Attribute) and node.func.attr in _W_MUT and _w_may_alias(node.func.value, kinds):
+                        note(_w_base(node.func.value) or '?', st)
+            if isinstance(st, ast.AugAssign):
+                t = st.target
+                if isinstance(t, ast.Name):
+                    if kinds.get(t.id) in ('given', 'alias'):
+                        note(t.id, st)
+                elif _w_may_alias(t, kinds):
+                    note(_w_base(t) or '?', st)
+            elif isinstance(st, ast.Assign):
+                for t in st.targets:
+                    if isinstance(t, (ast.Subscript, ast.Attribute)) and _w_may_alias(t.value if isinstance(t, ast.Subscript) else t.value, kinds) \
+                            and not (isinstance(t, ast.Attribute) and isinstance(t.value, ast.Name) and t.value.id == 'self'):
+                        note(_w_base(t) or '?', st)
+                for t in st.targets:
+                    bind(t, st.value)
+            elif isinstance(st, ast.AnnAssign) and st.value is not None:
+                bind(st.target, st.value)
+            elif isinstance(st, ast.Delete):
+                for t in st.targets:
+                    if isinstance(t, ast.Subscript) and _w_may_alias(t.value, kinds):
+                        note(_w_base(t) or '?', st)
+            elif isinstance(st, (ast.For, ast.AsyncFor)):
+                bind(st.target, ast.Subscript(value=st.iter, slice=ast.Constant(0)) if _w_may_alias(st.iter, kinds) else None)
+                visit(st.body)
+                visit(st.orelse)
+            elif isinstance(st, ast.While):
+                visit(st.body)
+                visit(st.orelse)
+            elif isinstance(st, ast.If):
+                before = dict(kinds)
+                visit(st.body)
+                after_body = dict(kinds)
+                kinds.clear()
+                kinds.update(before)
+                visit(st.orelse)
+                for k2, v2 in after_body.items():         # may-alias: the union of both branches
+                    if v2 in ('given', 'alias') or k2 not in kinds:
+                        kinds[k2] = v2
+            elif isinstance(st, (ast.With, ast.AsyncWith)):
+                visit(st.body)
+            elif isinstance(st, ast.Try):
+                visit(st.body)
+                for h in st.handlers:
+                    visit(h.body)
+                visit(st.orelse)
+                visit(st.finalbody)
+
+    visit(fn.body)
+    return rows
+
+
+def build_T13w(tree):
+    rows, spans = [], []
+    for q in _W_FUNCS:
+        fn = find_func(tree, q)
+        spans.append(fn)
+        rows += _w_scan(fn, q)
+    esc = lambda t: t.replace('\\', '\\\\').replace('"', '\\"')
+    body = ('[' + ',\n   '.join(f'("{esc(a)}", "{esc(b)}", "{esc(c)}")' for a, b, c in rows) + ']') if rows else '[]'
+    text = ('/-- spatial.py coordinate helpers: every in-place store into an object that may be (a view of) an argument of the caller\n'
+            '(function, written name, statement); expected to be empty -/\n'
+            f'def argumentWrites : List (String × String × String) :=\n  {body}\n\n'
+            f'/-- the functions that were scanned -/\ndef argumentWritesScanned : Nat := {len(_W_FUNCS)}')
+    return text, span_sha(spans)
+
+
+TARGETS['T13w'] = {'file': 'spatial.py', 'build': build_T13w}
